@@ -14,6 +14,7 @@
 -/
 import GIV.Lemmas.TsLifeGrace
 import GIV.Lemmas.TsLifeWosMain
+import GIV.Lemmas.TsLifeDlMore
 
 namespace GIV.C17
 open GIV GIV.TsLife
@@ -221,5 +222,221 @@ example : (runLbls ⟨100, some 1000, true, true⟩ St.init [.exitOwn 40, .waitR
 
 /-- without a failure of its own an early finisher passes: no error, no message. -/
 theorem early_finish_passes : cmdExecOutcome false (Res.isErr false (.waitStatus .own)) false = .ok := by decide
+
+/-! ### more on the plan: order of the events, no overflow -/
+
+/-- For EVERY distance `timeout` to the deadline (also one that is already over): the interrupt
+comes exactly one grace period before the kill and the kill exactly one grace period before the
+deadline, and a grace period is at least 100ms — so both happen before `Deadline − 100ms`, in this
+order, at least 100ms apart. -/
+theorem plan_is_ordered : ∀ timeout : Int,
+    (plan timeout).interruptAt + (plan timeout).grace = (plan timeout).killAt ∧
+    (plan timeout).killAt + (plan timeout).grace = timeout ∧
+    (plan timeout).interruptAt + 100000000 ≤ (plan timeout).killAt ∧
+    (plan timeout).killAt + 100000000 ≤ timeout :=
+  fun t => TsLife.plan_order t
+
+example : (plan 30000000000).interruptAt = 27000000000 ∧ (plan 30000000000).killAt = 28500000000 := by decide
+
+/-- `time.Duration` is an int64 and the model computes in ℤ: for every int64 `timeout` (time.Until
+saturates, so it always is one) except the last 200ms before the most negative duration (a deadline
+more than 292 years in the past), every value RunT's deadline block computes — `timeout / 20`, the
+grace period, `2 * gracePeriod`, `timeout − 2 * gracePeriod` — and the kill offset is an int64
+again: the ℤ arithmetic of the model IS the int64 arithmetic of the code, nothing wraps. -/
+theorem plan_no_overflow : ∀ timeout : Int, -9223372036654775808 ≤ timeout → timeout ≤ 9223372036854775807 →
+    fits64 (Int.tdiv timeout 20) ∧ fits64 (grace timeout) ∧ fits64 (2 * grace timeout) ∧
+    fits64 (ctxTimeout timeout) ∧ fits64 (ctxTimeout timeout + fgKillDelay timeout) :=
+  fun t h1 h2 => plan_fits64 t h1 h2
+
+example : fits64 (ctxTimeout 9223372036854775807) ∧ fits64 (ctxTimeout (-9223372036654775808)) := by decide
+-- the bound is sharp: one nanosecond further down `timeout − 2 * gracePeriod` leaves the int64 range
+example : ¬ fits64 (ctxTimeout (-9223372036654775809)) := by decide
+
+/-! ### waitOrStop: every action at most once, signals only after the expiry -/
+
+/-- Over the labels of EVERY execution of waitOrStop (all interleavings, all timings, every scenario
+class): the context fires at most once, the process exits at most once, `cmd.Wait` returns at most
+once, there is at most one rendezvous on `errc`, the stopper passes `<-ctx.Done()` at most once,
+calls `cmd.Process.Signal` at most once, takes the kill timer at most once and calls
+`cmd.Process.Kill` at most once; and when waitOrStop has returned the process has exited exactly
+once, has been waited for exactly once, and exactly one value went over `errc`. -/
+theorem waitOrStop_actions_once : ∀ (c : Scn) (ls : List Lbl) (s : St), runLbls c St.init ls = some s →
+    (ls.countP Lbl.isCtxFire ≤ 1 ∧ ls.countP Lbl.isExit ≤ 1 ∧ ls.countP Lbl.isWaitRet ≤ 1 ∧
+     ls.countP Lbl.isSendRecv ≤ 1 ∧ ls.countP Lbl.isSelCtx ≤ 1 ∧ ls.countP Lbl.isSignal ≤ 1 ∧
+     ls.countP Lbl.isTimer ≤ 1 ∧ ls.countP Lbl.isKill ≤ 1) ∧
+    (s.final = true → ls.countP Lbl.isExit = 1 ∧ ls.countP Lbl.isWaitRet = 1 ∧ ls.countP Lbl.isSendRecv = 1) := by
+  intro c ls s h
+  obtain ⟨b1, b2, b3, b4, b5, b6, b7, b8⟩ := budget_run ls h
+  have e1 : St.init.cLeft = 1 := rfl
+  have e2 : St.init.eLeft = 1 := rfl
+  have e3 : St.init.wLeft = 1 := rfl
+  have e4 : St.init.rLeft = 1 := rfl
+  have e5 : St.init.selLeft = 1 := rfl
+  have e6 : St.init.gLeft = 1 := rfl
+  have e7 : St.init.tLeft = 1 := rfl
+  have e8 : St.init.kLeft = 1 := rfl
+  refine ⟨by omega, fun hf => ?_⟩
+  have hi := inv_reach h
+  simp only [St.final, Bool.and_eq_true, beq_iff_eq] at hf
+  obtain ⟨⟨⟨hw, hs⟩, _⟩, _⟩ := hf
+  cases hw' : s.w with
+  | waiting => simp [hw'] at hw
+  | ready => simp [hw'] at hw
+  | returned v =>
+    obtain ⟨f, hp⟩ := hi.j3 (by rw [hw']; intro hh; cases hh)
+    have z1 : s.eLeft = 0 := by simp [St.eLeft, hp]
+    have z2 : s.wLeft = 0 := by simp [St.wLeft, hw']
+    have z3 : s.rLeft = 0 := by simp [St.rLeft, hs]
+    omega
+
+example : (runLbls ⟨100, some 1000, false, false⟩ St.init
+    [.ctxFire 1000, .selCtx 1000, .signal 1001 .ok, .timer 1101, .kill 1101, .exitKill 1102, .waitRet 1102, .sendRecv 1102]).isSome = true ∧
+    [Lbl.ctxFire 1000, .selCtx 1000, .signal 1001 .ok, .timer 1101, .kill 1101, .exitKill 1102, .waitRet 1102, .sendRecv 1102].countP Lbl.isKill = 1 := by decide
+-- a second Signal / Kill / Wait is not a step of the system
+example : runLbls ⟨100, some 1000, false, false⟩ St.init
+    [.ctxFire 1000, .selCtx 1000, .signal 1001 .ok, .signal 1002 .ok] = none := by decide
+
+/-- On the abstract clock, in every reachable state: `cmd.Process.Signal` is called only if there
+is a deadline, and not before the context's expiry; `cmd.Process.Kill` only when armed
+(`killDelay > 0`: foreground commands) and not before expiry + killDelay; without a deadline
+neither is ever called. -/
+theorem signals_only_after_expiry : ∀ (c : Scn) (ls : List Lbl) (s : St), runLbls c St.init ls = some s →
+    (∀ ti, s.sigAt = some ti → ∃ d, c.deadline = some d ∧ d ≤ ti) ∧
+    (∀ tk, s.killAt = some tk → killArmed c.killDelay = true ∧ 0 < c.killDelay ∧
+       ∃ d, c.deadline = some d ∧ (d : Int) + c.killDelay ≤ (tk : Int)) ∧
+    (c.deadline = none → s.sigAt = none ∧ s.killAt = none) := by
+  intro c ls s h
+  have hi := inv_reach h
+  have ht := tinv_reach h
+  have hk : ∀ tk, s.killAt = some tk → killArmed c.killDelay = true ∧ 0 < c.killDelay ∧
+       ∃ d, c.deadline = some d ∧ (d : Int) + c.killDelay ≤ (tk : Int) := by
+    intro tk htk
+    obtain ⟨ha, ti, hti, hle⟩ := hi.j13 tk htk
+    obtain ⟨_, d, hd, hdle⟩ := ht.t2 ti hti
+    have hpos : 0 < c.killDelay := by
+      simpa [killArmed, FWos.guardStrict] using ha
+    exact ⟨ha, hpos, d, hd, by omega⟩
+  refine ⟨fun ti hti => (ht.t2 ti hti).2, hk, fun hn => ⟨?_, ?_⟩⟩
+  · cases hs : s.sigAt with
+    | none => rfl
+    | some ti => obtain ⟨_, d, hd, _⟩ := ht.t2 ti hs; rw [hn] at hd; cases hd
+  · cases hs : s.killAt with
+    | none => rfl
+    | some tk => obtain ⟨_, _, d, hd, _⟩ := hk tk hs; rw [hn] at hd; cases hd
+
+example : (runLbls ⟨100, some 1000, false, false⟩ St.init
+    [.ctxFire 1000, .selCtx 1000, .signal 1001 .ok, .timer 1101, .kill 1101]).map (fun s => (s.sigAt, s.killAt)) =
+    some (some 1001, some 1101) := by decide
+-- the context cannot fire before the deadline, the timer not before the kill delay is over
+example : runLbls ⟨100, some 1000, false, false⟩ St.init [.ctxFire 999] = none := by decide
+example : runLbls ⟨100, some 1000, false, false⟩ St.init [.ctxFire 1000, .selCtx 1000, .signal 1001 .ok, .timer 1100] = none := by decide
+
+/-! ### waitOrStop: which error is returned -/
+
+/-- The code's rule, for every execution in which waitOrStop has returned: an interrupt error (not
+the command's own wait status) is returned EXACTLY when `cmd.Process.Signal` was called and returned
+nil or an error other than ErrProcessDone — that is, when the context expired before `cmd.Wait`
+had reaped the process; and whenever the interrupt reached the live process, the error returned is
+the context's error. -/
+theorem interrupt_error_iff_signalled : ∀ (c : Scn) (ls : List Lbl) (s : St),
+    runLbls c St.init ls = some s → s.final = true →
+    ((∃ e, s.result = some (.interruptErr e)) ↔ ∃ t, Lbl.signal t .ok ∈ ls ∨ Lbl.signal t .other ∈ ls) ∧
+    ((∃ f, s.result = some (.waitStatus f)) ↔ ∀ t, Lbl.signal t .ok ∉ ls ∧ Lbl.signal t .other ∉ ls) ∧
+    (s.delivered = true → s.result = some (.interruptErr .ctxErr)) := by
+  intro c ls s h hf
+  have hiff := result_interrupt_iff h hf
+  have hany : ls.any Lbl.sigSent = true ↔ ∃ t, Lbl.signal t .ok ∈ ls ∨ Lbl.signal t .other ∈ ls := by
+    rw [List.any_eq_true]
+    constructor
+    · intro ⟨l, hl, hs⟩
+      cases l with
+      | signal t r => cases r <;> simp [Lbl.sigSent] at hs <;> exact ⟨t, by simp [hl]⟩
+      | _ => simp [Lbl.sigSent] at hs
+    · intro ⟨t, ht⟩
+      rcases ht with ht | ht
+      · exact ⟨_, ht, rfl⟩
+      · exact ⟨_, ht, rfl⟩
+  have h1 : (∃ e, s.result = some (.interruptErr e)) ↔ ∃ t, Lbl.signal t .ok ∈ ls ∨ Lbl.signal t .other ∈ ls :=
+    hiff.trans hany
+  refine ⟨h1, ?_, delivered_result h hf⟩
+  -- a final state has a result: it is one or the other
+  have hi := inv_reach h
+  have hres : s.result.isSome = true := by
+    have hf' := hf
+    simp only [St.final, Bool.and_eq_true, beq_iff_eq] at hf'
+    obtain ⟨⟨⟨hw, _⟩, _⟩, _⟩ := hf'
+    cases hw' : s.w with
+    | waiting => simp [hw'] at hw
+    | ready => simp [hw'] at hw
+    | returned v => exact final_result hf (hi.j3 (by rw [hw']; intro hh; cases hh))
+  constructor
+  · intro ⟨f, hf1⟩ t
+    have : ¬ ∃ t, Lbl.signal t .ok ∈ ls ∨ Lbl.signal t .other ∈ ls := by
+      intro hx
+      obtain ⟨e, he⟩ := h1.2 hx
+      rw [hf1] at he; cases he
+    exact ⟨fun hx => this ⟨t, Or.inl hx⟩, fun hx => this ⟨t, Or.inr hx⟩⟩
+  · intro hno
+    cases hr : s.result with
+    | none => simp [hr] at hres
+    | some r =>
+      cases r with
+      | waitStatus f => exact ⟨f, rfl⟩
+      | interruptErr e =>
+        obtain ⟨t, ht⟩ := h1.1 ⟨e, hr⟩
+        rcases ht with ht | ht
+        · exact absurd ht (hno t).1
+        · exact absurd ht (hno t).2
+
+-- the two racing executions of the examples above: ErrProcessDone → own status; nil → ctx.Err()
+example : (runLbls ⟨100, some 1000, true, true⟩ St.init
+    [.exitOwn 1000, .ctxFire 1000, .selCtx 1000, .waitRet 1000, .signal 1000 .processDone, .sendRecv 1000]).map St.result =
+    some (some (.waitStatus .own)) := by decide
+example : (runLbls ⟨100, some 1000, true, true⟩ St.init
+    [.exitOwn 1000, .ctxFire 1000, .selCtx 1000, .signal 1000 .ok, .waitRet 1000, .sendRecv 1000]).map (fun s => (s.result, s.delivered)) =
+    some (some (.interruptErr .ctxErr), false) := by decide
+-- a failing Signal call with the escalation armed: ctx.Err() if Wait returns first, the Signal error after the Kill
+example : (runLbls ⟨100, some 1000, true, true⟩ St.init
+    [.ctxFire 1000, .selCtx 1000, .signal 1000 .other, .exitOwn 1001, .waitRet 1001, .sendRecv 1001]).map St.result =
+    some (some (.interruptErr .ctxErr)) := by decide
+example : (runLbls ⟨100, some 1000, true, true⟩ St.init
+    [.ctxFire 1000, .selCtx 1000, .signal 1000 .other, .timer 1100, .kill 1100, .exitKill 1101, .waitRet 1101, .sendRecv 1101]).map St.result =
+    some (some (.interruptErr .other)) := by decide
+
+/-! ### reporting: the whole table -/
+
+/-- cmdExec's attribution for `exec` and `! exec` alike: the line is reported "timed out" EXACTLY
+when the command failed (non-nil error) and the context had expired when the check ran; in all
+other cases the context plays no role: success is fatal iff negated, failure is fatal iff not
+negated. -/
+theorem timeout_reported_iff : ∀ neg err ctxErrNow : Bool,
+    (cmdExecOutcome neg err ctxErrNow = .fatal "test timed out while running command" ↔ (err = true ∧ ctxErrNow = true)) ∧
+    cmdExecOutcome neg err ctxErrNow =
+      (if err && ctxErrNow then .fatal "test timed out while running command"
+       else if err == neg then .ok
+       else if err then .fatal "unexpected command failure" else .fatal "unexpected command success") :=
+  fun neg err ctx => ⟨cmdExec_timeout_iff neg err ctx, cmdExec_table neg err ctx⟩
+
+example : cmdExecOutcome true true false = .ok ∧ cmdExecOutcome true false true = .fatal "unexpected command success" := by decide
+-- the code's rule, not the reader's: a command that fails BY ITSELF after the expiry is reported as timed out too
+example : cmdExecOutcome true (Res.isErr true (.waitStatus .own)) true = .fatal "test timed out while running command" := by decide
+
+/-- End to end for EVERY scenario class (also a process that exits on the interrupt, or by itself at
+about the moment the deadline fires): whenever waitOrStop returns an interrupt error the context is
+done, so cmdExec reports the line as timed out, negated or not; and while the context is not done
+no line is ever reported as timed out. -/
+theorem interrupt_error_reported : ∀ (c : Scn) (ls : List Lbl) (s : St) (e : SErr) (neg ownFailed : Bool),
+    runLbls c St.init ls = some s → s.result = some (.interruptErr e) →
+    cmdExecOutcome neg (Res.isErr ownFailed (.interruptErr e)) s.ctxDone = .fatal "test timed out while running command" ∧
+    ∀ (r : Res), cmdExecOutcome neg (Res.isErr ownFailed r) false ≠ .fatal "test timed out while running command" := by
+  intro c ls s e neg own h hr
+  have hc := (result_interrupt (inv_reach h) hr).1
+  refine ⟨by rw [hc]; exact cmdExec_timeout neg, fun r hx => ?_⟩
+  have := (cmdExec_timeout_iff neg (Res.isErr own r) false).1 hx
+  simp at this
+
+example : (runLbls ⟨100, some 1000, false, true⟩ St.init
+    [.ctxFire 1000, .selCtx 1000, .signal 1001 .ok, .exitSig 1002, .waitRet 1002, .sendRecv 1002]).map (fun s => (s.result, s.ctxDone)) =
+    some (some (.interruptErr .ctxErr), true) := by decide
 
 end GIV.C17
